@@ -24,6 +24,19 @@ At(t, i) == IF i >= 1 /\ i <= Len(t) THEN t[i] ELSE EOFC
 IsBlank(c) == c = SP \/ c = TAB
 IsSep(c) == c = SP \/ c = TAB \/ c = LF \/ c = CR
 
+\* ---- characters that are ordinary to YANG but look like structure to a program that is careless about code points ----
+\* the ASCII characters that mean something to the lexer
+Structural == {SP, TAB, LF, CR, DQ, SQ, BSL, LBR, RBR, SEMI, PLUS, SLASH, STAR}
+\* for every structural character s the code points of 2, 3 and 4 bytes (Latin-1, BMP, the supplementary planes 1 and 16)
+\* that become s when a code point is cut down to its low 7, 8 or 16 bits: 0x80+s, 0x100+s, 0x2000+s, 0x10000+s, 0x1F600+s,
+\* 0x10FF00+s.  YANG knows nothing of them: each is an ordinary character of a word, a string or a comment.
+AliasOffsets == <<128, 256, 8192, 65536, 128512, 1113856>>
+AliasesAt(o) == {s + o : s \in Structural}
+\* white space to Unicode (White_Space property, or what reads as a blank: zero-width space, byte order mark) - but neither a
+\* blank nor a separator of YANG (RFC 6020 6.1.3 / 6.1.2 speak of space, tab and line breaks only)
+VT == 11   FF == 12   NEL == 133   NBSP == 160   BOM == 65279
+UniBlanks == {VT, FF, NEL, NBSP, 5760, 8192, 8201, 8203, 8232, 8233, 8239, 8287, 12288}
+
 RECURSIVE SumWidth(_, _, _)
 SumWidth(t, a, b) == IF a > b THEN 0 ELSE Width(t[a]) + SumWidth(t, a + 1, b)
 \* byte offset of the character at index i (1-based) = bytes before it
